@@ -27,6 +27,9 @@
 (*  panic            (C20) the real decoder panicked                        *)
 (*  fields           (C22) accepted by both, a field differs from the value *)
 (*                         at its layout position after the actual header   *)
+(*  body-offset      (C22) the decoded packet is exactly what the layout    *)
+(*                         yields two octets early (header length derived   *)
+(*                         from the announced length, not the form present) *)
 (*  repack           (C22) fields agree but re-encoding does not reproduce  *)
 (*                         type + body (modulo the allowed differences)     *)
 (*  accept-nonlayout (C22) the real decoder accepted a datagram that has no *)
@@ -62,12 +65,14 @@ JudgeDg(d, o, pkt, rp) ==
   CASE o = 1 -> {E("panic", PanicClass(d), t, "", d, Blank)}
     [] o = 2 /\ r.ok ->
          LET mm == Mismatch(r.pkt, pkt) IN
-         IF mm # {} THEN {E("fields", cls, t, CHOOSE f \in mm : TRUE, d, Blank)}
+         IF mm # {} THEN (IF IsWrongOffsetDecode(d, pkt) THEN {E("body-offset", cls, t, "", d, Blank)}
+                          ELSE {E("fields", cls, t, CHOOSE f \in mm : TRUE, d, Blank)})
          ELSE IF ~RepackOK(rp, TypeOf(d), BodyOf(Encode(r.pkt))) THEN {E("repack", cls, t, "", d, Blank)}
          ELSE {}
     [] o = 2 /\ ~r.ok ->
          IF HdrOk(d) /\ RepackOK(rp, TypeOf(d), BodyOf(d))
          THEN {E("accept-extra", cls, t, r.why, d, Blank)}
+         ELSE IF IsWrongOffsetDecode(d, pkt) THEN {E("body-offset", cls, t, "", d, Blank)}
          ELSE {E("accept-nonlayout", cls, t, r.why, d, Blank)}
     [] o = 0 /\ r.ok -> {E("reject-extra", cls, t, "", d, Blank)}
     [] OTHER -> {}
